@@ -889,12 +889,12 @@ Lemma adel_skeys {A} h (l : list (N * A)) : NoDup (map fst l) -> NoDup (map fst 
 Proof. apply adel_keys_NoDup. Qed.
 
 (* what the steps below report besides the counting core *)
-Record StepOut (p : proc) (fs : fsys) (t : N) (rest : list instr) (p' : proc) (fs' : fsys) : Prop := mkStepOut {
+Record StepOut (Q : Prop) (p : proc) (fs : fsys) (t : N) (rest : list instr) (p' : proc) (fs' : fsys) : Prop := mkStepOut {
   so_core : RCore p' fs' (fun _ => O);
   so_other : forall t', t' <> t -> pc_get t' p' = pc_get t' p;
   so_self : exists l, pc_get t p' = map IRelease l ++ rest;
   so_pins : forall x, (spc (npin x) (p_pcs p') <= spc (npin x) (p_pcs p))%nat;
-  so_quiet : forall x, quiet x p -> In x (f_sst fs) -> quiet x p' /\ In x (f_sst fs');
+  so_quiet : Q -> forall x, quiet x p -> In x (f_sst fs) -> quiet x p' /\ In x (f_sst fs');
   so_vers : p_vers p' <> [];
   so_g : GFs fs'
 }.
@@ -912,7 +912,7 @@ Section WorkStep.
   Proof. now rewrite (proj1 Hh). Qed.
 
   Lemma pin_step x : pc_get t p = IPinLink x :: rest ->
-    StepOut p fs t rest (set_refs p1 (rc_inc x (p_refs p1))) (set_sst fs (add x (f_sst fs)) (f_trash fs)).
+    StepOut True p fs t rest (set_refs p1 (rc_inc x (p_refs p1))) (set_sst fs (add x (f_sst fs)) (f_trash fs)).
   Proof.
     intros Epc. destruct (pop_facts p t _ rest (r_keys _ _ R) Epc) as [Hk1 [Hpc1 [Hr1 Hp1]]]. fold p1 in Hk1, Hpc1, Hr1, Hp1.
     pose proof (RInv_core _ _ R) as C. pose proof (vers_nonempty _ _ R Hmain) as Hv.
@@ -927,7 +927,7 @@ Section WorkStep.
     - intros t' Ht'. transitivity (pc_get t' p1); [apply pc_get_eq; reflexivity|]. rewrite Hpc1. destruct (N.eqb_spec t' t); [contradiction|reflexivity].
     - exists []. cbn [map app]. transitivity (pc_get t p1); [apply pc_get_eq; reflexivity|]. now rewrite Hpc1, N.eqb_refl.
     - intros y. cbn [p_pcs set_refs]. specialize (Hp1 y). lia.
-    - intros y [Q1 [Q2 Q3]] Hy. split; [split; [exact Q1|split]|].
+    - intros _ y [Q1 [Q2 Q3]] Hy. split; [split; [exact Q1|split]|].
       + cbn [p_pcs set_refs]. specialize (Hr1 y). cbn [is_rel] in Hr1. lia.
       + cbn [p_pcs set_refs]. specialize (Hp1 y). lia.
       + cbn [f_sst set_sst]. apply add_In. now right.
@@ -936,7 +936,7 @@ Section WorkStep.
   Qed.
 
   Lemma release_step x : pc_get t p = IRelease x :: rest ->
-    StepOut p fs t rest (set_refs p1 (fst (rc_dec x (p_refs p1))))
+    StepOut True p fs t rest (set_refs p1 (fst (rc_dec x (p_refs p1))))
             (if snd (rc_dec x (p_refs p1)) then to_trash x fs else fs).
   Proof.
     intros Epc. destruct (pop_facts p t _ rest (r_keys _ _ R) Epc) as [Hk1 [Hpc1 [Hr1 Hp1]]]. fold p1 in Hk1, Hpc1, Hr1, Hp1.
@@ -963,7 +963,7 @@ Section WorkStep.
     - intros t' Ht'. transitivity (pc_get t' p1); [apply pc_get_eq; reflexivity|]. rewrite Hpc1. destruct (N.eqb_spec t' t); [contradiction|reflexivity].
     - exists []. cbn [map app]. transitivity (pc_get t p1); [apply pc_get_eq; reflexivity|]. now rewrite Hpc1, N.eqb_refl.
     - intros y. cbn [p_pcs set_refs]. specialize (Hp1 y). lia.
-    - intros y [Q1 [Q2 Q3]] Hy.
+    - intros _ y [Q1 [Q2 Q3]] Hy.
       assert (Hne : y <> x).
       { intros ->. pose proof (spc_ge (nrel x) t p) as H. rewrite Epc, nrel_cons in H. cbn [is_rel] in H. rewrite N.eqb_refl in H. cbn in H. lia. }
       split; [split; [exact Q1|split]|].
@@ -989,7 +989,7 @@ Section WorkStep2.
   (* an instruction that neither pins nor releases and leaves the process alone *)
   Lemma pop_step i fs' : pc_get t p = i :: rest -> (forall x, is_rel x i = false /\ is_pin x i = false) ->
     f_md fs' = f_md fs -> (forall x, In x (f_sst fs) -> In x (f_sst fs')) ->
-    StepOut p fs t rest p1 fs'.
+    StepOut True p fs t rest p1 fs'.
   Proof.
     intros Epc Hi Emd Hmono. destruct (pop_facts p t _ rest (r_keys _ _ R) Epc) as [Hk1 [Hpc1 [Hr1 Hp1]]]. fold p1 in Hk1, Hpc1, Hr1, Hp1.
     pose proof (RInv_core _ _ R) as C. pose proof (vers_nonempty _ _ R Hmain) as Hv.
@@ -1012,13 +1012,13 @@ Section WorkStep2.
     - intros t' Ht'. rewrite Hpc1. destruct (N.eqb_spec t' t); [contradiction|reflexivity].
     - exists []. cbn [map app]. now rewrite Hpc1, N.eqb_refl.
     - intros x. rewrite Hp1'. lia.
-    - intros x [Q1 [Q2 Q3]] Hx. split; [split; [exact Q1|split; [now rewrite Hr1'|now rewrite Hp1']]|now apply Hmono].
+    - intros _ x [Q1 [Q2 Q3]] Hx. split; [split; [exact Q1|split; [now rewrite Hr1'|now rewrite Hp1']]|now apply Hmono].
     - exact Hv.
     - apply (GFs_frame fs); assumption.
   Qed.
 
   Lemma take_step h : pc_get t p = ITake h :: rest -> aget h (p_snaps p) = None ->
-    StepOut p fs t rest
+    StepOut True p fs t rest
       (set_handles (set_vers p1 (upd_nth (p_cur p1) inc_strong (p_vers p1)) (p_cur p1)) ((h, p_cur p1) :: p_snaps p1)) fs.
   Proof.
     intros Epc Hnone. destruct (pop_facts p t _ rest (r_keys _ _ R) Epc) as [Hk1 [Hpc1 [Hr1 Hp1]]]. fold p1 in Hk1, Hpc1, Hr1, Hp1.
@@ -1052,7 +1052,7 @@ Section WorkStep2.
     - intros t' Ht'. transitivity (pc_get t' p1); [apply pc_get_eq; reflexivity|]. rewrite Hpc1. destruct (N.eqb_spec t' t); [contradiction|reflexivity].
     - exists []. cbn [map app]. transitivity (pc_get t p1); [apply pc_get_eq; reflexivity|]. now rewrite Hpc1, N.eqb_refl.
     - intros x. cbn [p_pcs set_handles set_vers]. specialize (Hp1 x). lia.
-    - intros x [Q1 [Q2 Q3]] Hx. split; [|exact Hx]. split; [|split].
+    - intros _ x [Q1 [Q2 Q3]] Hx. split; [|exact Hx]. split; [|split].
       + cbn [p_vers set_handles set_vers]. now rewrite Hregsum.
       + cbn [p_pcs set_handles set_vers]. specialize (Hr1 x). lia.
       + cbn [p_pcs set_handles set_vers]. specialize (Hp1 x). lia.
@@ -1062,7 +1062,7 @@ Section WorkStep2.
   Qed.
 
   Lemma drop_step h v : pc_get t p = IDropSnap h :: rest -> aget h (p_snaps p) = Some v ->
-    StepOut p fs t rest (unref_drop t v (set_handles p1 (adel h (p_snaps p1)))) fs.
+    StepOut True p fs t rest (unref_drop t v (set_handles p1 (adel h (p_snaps p1)))) fs.
   Proof.
     intros Epc Hsome. destruct (pop_facts p t _ rest (r_keys _ _ R) Epc) as [Hk1 [Hpc1 [Hr1 Hp1]]]. fold p1 in Hk1, Hpc1, Hr1, Hp1.
     pose proof (RInv_core _ _ R) as C. pose proof (vers_nonempty _ _ R Hmain) as Hv.
@@ -1094,7 +1094,7 @@ Section WorkStep2.
         destruct (push_facts (set_vers q (upd_nth v retire (p_vers q)) (p_cur q)) t (map IRelease (names_of q v)) (c_keys _ _ _ CX)) as [_ [_ [_ K]]].
         cbn zeta in K. rewrite K, npin_releases. cbn [p_pcs set_vers]. lia. }
       rewrite Hpush. cbn [q p_pcs set_handles]. lia.
-    - intros x [Q1 [Q2 Q3]] Hx. split; [|exact Hx].
+    - intros _ x [Q1 [Q2 Q3]] Hx. split; [|exact Hx].
       assert (Hnl : ~ In x l).
       { intros Hin. specialize (U3 x Hin). cbn [q p_vers set_handles] in U3. change (p_vers p1) with (p_vers p) in U3. lia. }
       split; [|split].
@@ -1136,14 +1136,13 @@ Section WorkStep3.
                   | None => names_of p1 (p_cur p1)
                   end in
     (forall y, In y adds -> In y (f_sst fs)) ->
-    (forall x, quiet x p -> ~ In x adds) ->
-    StepOut p fs t rest
+    StepOut (forall x, quiet x p -> ~ In x adds) p fs t rest
       (unref_drop t (p_cur p1)
          (set_refs (set_vers q0 (p_vers q0 ++ [mkV names' 1 true]) (length (p_vers q0)))
                    (rc_incs names' (p_refs (set_vers q0 (p_vers q0 ++ [mkV names' 1 true]) (length (p_vers q0)))))))
       (s_fs s1).
   Proof.
-    intros Epc Es adds names' Hadds Hquiet.
+    intros Epc Es adds names' Hadds.
     destruct (pop_facts p t _ rest (r_keys _ _ R) Epc) as [Hk1 [Hpc1 [Hr1 Hp1]]]. fold p1 in Hk1, Hpc1, Hr1, Hp1.
     pose proof (RInv_core _ _ R) as C. pose proof (vers_nonempty _ _ R Hmain) as Hv.
     assert (Hr1' : forall x, spc (nrel x) (p_pcs p1) = spc (nrel x) (p_pcs p)) by (intros x; specialize (Hr1 x); cbn [is_rel] in Hr1; lia).
@@ -1163,7 +1162,7 @@ Section WorkStep3.
           split; [exact Hy|]. subst names'. apply in_or_app. left. apply dels_In. split; [|exact Hn].
           exact (r_strs _ _ R Hv y Hy).
       - injection Es as <- <-. repeat split; try reflexivity.
-        + fold fs. now rewrite live_is_ms with (s := s) (p := p).
+        + exact (live_is_ms s p Hh).
         + intros y Hy. right. split; [exact Hy|]. exact (r_strs _ _ R Hv y Hy). }
     destruct Hq0 as [E1 [E2 [E3 [E4 [E5 [E6 [E7 E8]]]]]]].
     assert (Hnames_sst : forall y, In y names' -> In y (f_sst fs)).
@@ -1196,7 +1195,7 @@ Section WorkStep3.
     - intros t' Ht'. rewrite (U1 t' Ht'), Hq2_pc, Hpc1. destruct (N.eqb_spec t' t); [contradiction|reflexivity].
     - exists l. rewrite U2, Hq2_pc, Hpc1, N.eqb_refl. reflexivity.
     - intros x. rewrite Hpins. lia.
-    - intros x Q Hx. pose proof Q as [Q1 [Q2 Q3]].
+    - intros Hquiet x Q Hx. pose proof Q as [Q1 [Q2 Q3]].
       assert (Hcn : cnt x names' = O).
       { destruct (Nat.eq_dec (cnt x names') 0) as [E|E]; [exact E|exfalso].
         assert (Hin : In x names') by (apply cnt_pos; lia). subst names'. destruct oe as [e|].
@@ -1214,6 +1213,226 @@ Section WorkStep3.
       + now rewrite Hpins.
     - apply U7. cbn [q2 p_vers set_refs set_vers]. intros E. apply (f_equal (@length _)) in E. rewrite app_length in E. cbn in E. lia.
     - intros y Hy. rewrite E7 in Hy. rewrite E6. destruct (E8 y Hy) as [K|[K _]]; [now apply Hadds|].
-      apply G. fold fs. rewrite live_is_ms with (s := s) (p := p); assumption.
+      apply G. unfold fs. rewrite (live_is_ms s p Hh). exact K.
   Qed.
 End WorkStep3.
+
+(* ---------------------------------------------------------------- assembling a step of a working thread *)
+Lemma stepout_rinv Q p fs t rest p' fs' :
+  StepOut Q p fs t rest p' fs' -> RInv p fs -> main_pc p = [] -> t <> T_MAIN ->
+  (t = T_FLUSH -> flush_ok p' fs') ->
+  (t <> T_FLUSH -> Q /\ worker_ok rest) -> RInv p' fs'.
+Proof.
+  intros [C Ho [l Hs] Hp Hq Hv Hg] R Hm Ht Hf Hw.
+  apply RInv_join.
+  - exact C.
+  - apply main_ok_idle; [|exact Hv]. unfold main_pc. rewrite Ho by congruence. exact Hm.
+  - destruct (N.eq_dec t T_FLUSH) as [E|E]; [now apply Hf|]. destruct (Hw E) as [HQ _].
+    apply (flush_ok_other p fs); [exact (r_flush _ _ R)|apply Ho; congruence| |exact (Hq HQ)].
+    intros x Hx. specialize (Hp x). lia.
+  - intros t' H1 H2. destruct (N.eq_dec t' t) as [->|Hne].
+    + rewrite Hs. apply worker_ok_push. exact (proj2 (Hw H2)).
+    + rewrite (Ho t' Hne). exact (r_work _ _ R t' H1 H2).
+Qed.
+
+Lemma adel_adel {A} t (l : list (N * A)) : adel t (adel t l) = adel t l.
+Proof.
+  induction l as [|[k v] l IH]; [reflexivity|]. cbn [adel]. destruct (N.eqb_spec t k) as [->|Hne]; [assumption|].
+  cbn [adel]. destruct (N.eqb_spec t k); [contradiction|]. now f_equal.
+Qed.
+
+Lemma pc_set_nil_twice t l p : pc_set t [] (pc_set t l p) = pc_set t [] p.
+Proof.
+  unfold pc_set, set_pcs. cbn [p_vers p_cur p_refs p_snaps p_ms p_next p_seq p_memseq p_lognum p_pcs p_ready].
+  f_equal. destruct l as [|i l].
+  - apply adel_adel.
+  - unfold aset. cbn [adel]. rewrite N.eqb_refl. apply adel_adel.
+Qed.
+
+Section Abort.
+  Variables (s : sys) (p : proc) (t : N) (pre : list instr).
+  Let fs := s_fs s.
+  Hypothesis Hmain : main_pc p = [].
+  Hypothesis R : RInv p fs.
+  Hypothesis G : GFs fs.
+
+  (* a thread gives up: its remaining instructions (none of them a pin or a release) are dropped *)
+  Lemma abort_step : pc_get t p = pre -> (forall x, nrel x pre = O /\ npin x pre = O) ->
+    StepOut True p fs t [] (pc_set t [] p) fs.
+  Proof.
+    intros Epc Hpre. pose proof (RInv_core _ _ R) as C. pose proof (vers_nonempty _ _ R Hmain) as Hv.
+    assert (Hr : forall x, spc (nrel x) (p_pcs (pc_set t [] p)) = spc (nrel x) (p_pcs p)).
+    { intros x. pose proof (spc_set (nrel x) t [] p (nrel_nil x) (c_keys _ _ _ C)) as H. rewrite Epc, (proj1 (Hpre x)), nrel_nil in H. lia. }
+    assert (Hp : forall x, spc (npin x) (p_pcs (pc_set t [] p)) = spc (npin x) (p_pcs p)).
+    { intros x. pose proof (spc_set (npin x) t [] p (npin_nil x) (c_keys _ _ _ C)) as H. rewrite Epc, (proj2 (Hpre x)), npin_nil in H. lia. }
+    split.
+    - split.
+      + exact (c_wf _ _ _ C).
+      + apply pc_set_keys, (c_keys _ _ _ C).
+      + exact (c_skeys _ _ _ C).
+      + intros x. rewrite Hr, Hp. exact (c_bal _ _ _ C x).
+      + exact (c_sst _ _ _ C).
+      + exact (c_strong _ _ _ C).
+      + exact (c_hvalid _ _ _ C).
+      + exact (c_cur _ _ _ C).
+      + exact (c_reg _ _ _ C).
+      + exact (c_strs _ _ _ C).
+    - intros t' Ht'. now apply pc_get_set_other.
+    - exists []. apply pc_get_set_same.
+    - intros x. rewrite Hp. lia.
+    - intros _ x [Q1 [Q2 Q3]] Hx. split; [split; [exact Q1|split; [now rewrite Hr|now rewrite Hp]]|exact Hx].
+    - exact Hv.
+    - exact G.
+  Qed.
+End Abort.
+
+Lemma worker_head_instr i rest : worker_ok (i :: rest) -> worker_instr i.
+Proof. intros [H _]. now inversion H. Qed.
+
+Lemma rel_or_rename_tail i rest : Forall rel_or_rename (i :: rest) -> Forall rel_or_rename rest.
+Proof. intros H. now inversion H. Qed.
+
+Lemma rel_or_rename_push l rest : Forall rel_or_rename rest -> Forall rel_or_rename (map IRelease l ++ rest).
+Proof. intros H. apply Forall_app. split; [|exact H]. induction l; constructor; [exact I|assumption]. Qed.
+
+Theorem step_work s p t i rest s' op' :
+  Hd (s_fs s) p -> main_pc p = [] -> t <> T_MAIN -> RInv p (s_fs s) -> GFs (s_fs s) ->
+  pc_get t p = i :: rest -> exec t i s (pc_set t rest p) = (s', op') ->
+  GFs (s_fs s') /\ forall p', op' = Some p' -> RInv p' (s_fs s').
+Proof.
+  intros Hh Hm Ht R G Epc Ex. set (p1 := pc_set t rest p) in *.
+  assert (Fin : forall Q p' fs', StepOut Q p (s_fs s) t rest p' fs' ->
+            (t = T_FLUSH -> flush_ok p' fs') -> (t <> T_FLUSH -> Q /\ worker_ok rest) ->
+            GFs fs' /\ RInv p' fs').
+  { intros Q p' fs' SO Hf Hw. split; [exact (so_g _ _ _ _ _ _ _ SO)|]. exact (stepout_rinv Q p (s_fs s) t rest p' fs' SO R Hm Ht Hf Hw). }
+  destruct (N.eq_dec t T_FLUSH) as [->|Hnf].
+  - (* the memtable thread *)
+    destruct (r_flush _ _ R) as [[x [L [r [n [E Hz]]]]]|[[x [L [r [n [E [Hx Hq]]]]]]|Hall]].
+    + (* about to link the new sst *)
+      rewrite E in Epc. injection Epc as <- <-. cbn [exec] in Ex. destruct (mem x (f_sst (s_fs s))) eqn:Emem.
+      * injection Ex as <- <-. subst p1. rewrite pc_set_nil_twice.
+        assert (SO := abort_step s p T_FLUSH _ Hm R G E
+                        (fun y => conj (eq_refl : nrel y [ILinkExcl x; ICommit (Some (mkEdit [] [x] L)) r; IRenameLog n] = O) eq_refl)).
+        split; [exact G|]. intros p' [= <-].
+        apply (stepout_rinv True p (s_fs s) T_FLUSH [] _ _ SO R Hm Ht).
+        -- intros _. apply flush_ok_idle. apply pc_get_set_same.
+        -- congruence.
+      * injection Ex as <- <-.
+        assert (SO : StepOut True p (s_fs s) T_FLUSH [ICommit (Some (mkEdit [] [x] L)) r; IRenameLog n] p1
+                       (set_sst (s_fs s) (f_sst (s_fs s) ++ [x]) (f_trash (s_fs s)))).
+        { apply (pop_step s p T_FLUSH _ Hm R G (ILinkExcl x)); [exact E|intros y; split; reflexivity|reflexivity|].
+          intros y Hy. cbn [f_sst set_sst]. apply in_or_app. now left. }
+        destruct (Fin _ _ _ SO) as [K1 K2].
+        -- intros _. right. left. exists x, L, r, n. split; [|split].
+           ++ subst p1. apply pc_get_set_same.
+           ++ cbn [f_sst set_sst]. apply in_or_app. right. now left.
+           ++ (* nobody counts, pins or is about to release x *)
+              assert (Hrc : rc_get x (p_refs p) = O).
+              { destruct (rc_get x (p_refs p)) eqn:Erc; [reflexivity|exfalso].
+                apply mem_false in Emem. apply Emem. apply (r_sst _ _ R). lia. }
+              pose proof (rc_ge_regsum p _ x R) as Hge. pose proof (r_bal _ _ R x) as B.
+              destruct (pop_facts p T_FLUSH _ _ (r_keys _ _ R) E) as [_ [_ [Hr1 Hp1]]].
+              specialize (Hr1 x). specialize (Hp1 x). cbn [is_rel is_pin] in Hr1, Hp1.
+              split; [change (p_vers p1) with (p_vers p); lia|split; subst p1; lia].
+        -- congruence.
+        -- split; [exact K1|]. intros p' [= <-]. exact K2.
+    + (* the critical section *)
+      rewrite E in Epc. injection Epc as <- <-. cbn [exec] in Ex.
+      destruct (store_apply s p1 (mkEdit [] [x] L) r) as [s1 q0] eqn:Es.
+      injection Ex as <- <-.
+      pose proof (commit_step s p T_FLUSH _ Hh Hm R G (Some (mkEdit [] [x] L)) r s1 q0 E Es) as SO. cbn zeta in SO.
+      assert (Hadds : forall y, In y (e_add (mkEdit [] [x] L)) -> In y (f_sst (s_fs s))) by (intros y [<-|[]]; exact Hx).
+      specialize (SO Hadds).
+      destruct (Fin _ _ _ SO) as [K1 K2].
+      * intros _. destruct (so_self _ _ _ _ _ _ _ SO) as [l Hl]. right. right. unfold flush_ok. rewrite Hl.
+        apply rel_or_rename_push. repeat constructor.
+      * congruence.
+      * split; [exact K1|]. intros p' [= <-]. exact K2.
+    + (* releasing the previous version, then renaming the log *)
+      rewrite Epc in Hall. pose proof (rel_or_rename_tail _ _ Hall) as Htl.
+      assert (Hi : rel_or_rename i) by now inversion Hall.
+      destruct i as [x|x|oe roll|x|h|h|n| | |x|x roll| | |x|rec tm]; cbn in Hi; try contradiction; cbn [exec] in Ex.
+      * (* IRelease *)
+        pose proof (release_step s p T_FLUSH _ Hh Hm R G x Epc) as SO. fold p1 in SO.
+        destruct (rc_dec x (p_refs p1)) as [r0 last] eqn:Ed. cbn [fst snd] in SO. injection Ex as <- <-.
+        assert (Efs : (if last then to_trash x (s_fs s) else s_fs s) = s_fs (mkSys (if last then to_trash x (s_fs s) else s_fs s) (s_p s) (s_v s) (s_hist s) (s_frags s))) by reflexivity.
+        destruct (Fin _ _ _ SO) as [K1 K2].
+        -- intros _. destruct (so_self _ _ _ _ _ _ _ SO) as [l Hl]. right. right. unfold flush_ok. rewrite Hl.
+           now apply rel_or_rename_push.
+        -- congruence.
+        -- split; [exact K1|]. intros p' [= <-]. exact K2.
+      * (* IRenameLog *)
+        destruct (log_find n (f_logs (s_fs s))) as [lg|]; injection Ex as <- <-.
+        -- assert (SO : StepOut True p (s_fs s) T_FLUSH rest p1
+                           (set_logs (s_fs s) (log_remove n (f_logs (s_fs s))) (log_insert lg (log_remove n (f_tlogs (s_fs s)))))).
+           { apply (pop_step s p T_FLUSH _ Hm R G (IRenameLog n)); [exact Epc|intros y; split; reflexivity|reflexivity|auto]. }
+           destruct (Fin _ _ _ SO) as [K1 K2].
+           ++ intros _. right. right. unfold flush_ok. subst p1. rewrite pc_get_set_same. exact Htl.
+           ++ congruence.
+           ++ split; [exact K1|]. intros p' [= <-]. exact K2.
+        -- assert (SO : StepOut True p (s_fs s) T_FLUSH rest p1 (s_fs s)).
+           { apply (pop_step s p T_FLUSH _ Hm R G (IRenameLog n)); [exact Epc|intros y; split; reflexivity|reflexivity|auto]. }
+           destruct (Fin _ _ _ SO) as [K1 K2].
+           ++ intros _. right. right. unfold flush_ok. subst p1. rewrite pc_get_set_same. exact Htl.
+           ++ congruence.
+           ++ split; [exact K1|]. intros p' [= <-]. exact K2.
+  - (* a compaction thread or a reader releasing its snapshot *)
+    pose proof (r_work _ _ R t Ht Hnf) as W. rewrite Epc in W. pose proof (worker_ok_tail _ _ W) as Wt.
+    pose proof (worker_head_instr _ _ W) as Hi.
+    destruct i as [x|x|oe roll|x|h|h|n| | |x|x roll| | |x|rec tm]; cbn in Hi; try contradiction; cbn [exec] in Ex.
+    + (* IPinLink *)
+      injection Ex as <- <-. pose proof (pin_step s p t _ Hm R G x Epc) as SO.
+      destruct (Fin _ _ _ SO) as [K1 K2]; [contradiction|intros _; split; [exact I|exact Wt]|].
+      split; [exact K1|]. intros p' [= <-]. exact K2.
+    + (* ICommit *)
+      destruct (match oe with Some e => store_apply s p1 e roll | None => (s, p1) end) as [s1 q0] eqn:Es.
+      assert (Ex' : (s1, Some (unref_drop t (p_cur p1)
+                 (set_refs (set_vers q0 (p_vers q0 ++ [mkV (match oe with
+                                                            | Some e => dels (e_rm e) (names_of p1 (p_cur p1)) ++ e_add e
+                                                            | None => names_of p1 (p_cur p1) end) 1 true]) (length (p_vers q0)))
+                           (rc_incs (match oe with
+                                     | Some e => dels (e_rm e) (names_of p1 (p_cur p1)) ++ e_add e
+                                     | None => names_of p1 (p_cur p1) end)
+                                    (p_refs (set_vers q0 (p_vers q0 ++ [mkV (match oe with
+                                                            | Some e => dels (e_rm e) (names_of p1 (p_cur p1)) ++ e_add e
+                                                            | None => names_of p1 (p_cur p1) end) 1 true]) (length (p_vers q0)))))))) = (s', op')).
+      { rewrite <- Ex. destruct oe; reflexivity. }
+      injection Ex' as <- <-.
+      pose proof (commit_step s p t _ Hh Hm R G oe roll s1 q0 Epc Es) as SO. cbn zeta in SO.
+      assert (Hco : forall x, In x (match oe with Some e => e_add e | None => [] end) -> (1 <= nrel x rest)%nat /\ npin x rest = O).
+      { intros x Hx. destruct oe as [e|]; [|destruct Hx]. destruct (proj2 (proj2 W) [] e roll rest eq_refl) as [C1 C2]. split; [now apply C1|apply C2]. }
+      assert (Hadds : forall y, In y (match oe with Some e => e_add e | None => [] end) -> In y (f_sst (s_fs s))).
+      { intros y Hy. destruct (Hco y Hy) as [C1 C2]. apply (r_sst _ _ R). pose proof (r_bal _ _ R y) as B.
+        assert (H : (spc (npin y) (p_pcs p) + 1 <= spc (nrel y) (p_pcs p))%nat).
+        { apply (spc_diff _ _ t 1 p (npin_nil y) (nrel_nil y) (r_keys _ _ R) (entries_balanced p _ y R)).
+          rewrite Epc, npin_cons, nrel_cons. cbn [is_pin is_rel]. lia. }
+        lia. }
+      specialize (SO Hadds).
+      destruct (Fin _ _ _ SO) as [K1 K2]; [contradiction| |].
+      * intros _. split; [|exact Wt]. intros x [Q1 [Q2 Q3]] Hx. destruct (Hco x Hx) as [C1 _].
+        pose proof (spc_ge (nrel x) t p) as H. rewrite Epc, nrel_cons in H. cbn [is_rel] in H. cbn in H. lia.
+      * split; [exact K1|]. intros p' [= <-]. exact K2.
+    + (* IRelease *)
+      pose proof (release_step s p t _ Hh Hm R G x Epc) as SO. fold p1 in SO.
+      destruct (rc_dec x (p_refs p1)) as [r0 last] eqn:Ed. cbn [fst snd] in SO. injection Ex as <- <-.
+      destruct (Fin _ _ _ SO) as [K1 K2]; [contradiction|intros _; split; [exact I|exact Wt]|].
+      split; [exact K1|]. intros p' [= <-]. exact K2.
+    + (* ITake *)
+      change (p_snaps p1) with (p_snaps p) in Ex. destruct (aget h (p_snaps p)) as [v|] eqn:Eh; injection Ex as <- <-.
+      * assert (SO : StepOut True p (s_fs s) t rest p1 (s_fs s)).
+        { apply (pop_step s p t _ Hm R G (ITake h)); [exact Epc|intros y; split; reflexivity|reflexivity|auto]. }
+        destruct (Fin _ _ _ SO) as [K1 K2]; [contradiction|intros _; split; [exact I|exact Wt]|].
+        split; [exact K1|]. intros p' [= <-]. exact K2.
+      * pose proof (take_step s p t _ Hm R G h Epc Eh) as SO.
+        destruct (Fin _ _ _ SO) as [K1 K2]; [contradiction|intros _; split; [exact I|exact Wt]|].
+        split; [exact K1|]. intros p' [= <-]. exact K2.
+    + (* IDropSnap *)
+      change (p_snaps p1) with (p_snaps p) in Ex. destruct (aget h (p_snaps p)) as [v|] eqn:Eh; injection Ex as <- <-.
+      * pose proof (drop_step s p t _ Hm R G h v Epc Eh) as SO.
+        destruct (Fin _ _ _ SO) as [K1 K2]; [contradiction|intros _; split; [exact I|exact Wt]|].
+        split; [exact K1|]. intros p' [= <-]. exact K2.
+      * assert (SO : StepOut True p (s_fs s) t rest p1 (s_fs s)).
+        { apply (pop_step s p t _ Hm R G (IDropSnap h)); [exact Epc|intros y; split; reflexivity|reflexivity|auto]. }
+        destruct (Fin _ _ _ SO) as [K1 K2]; [contradiction|intros _; split; [exact I|exact Wt]|].
+        split; [exact K1|]. intros p' [= <-]. exact K2.
+Qed.
